@@ -82,7 +82,7 @@ Proof.
     split; [eapply (ins_descend_pc K V ltb HS); eauto | eapply ins_descend_lp; eauto].
   - (* InsWantChild *)
     blk_top HB.
-    split; [eapply (ins_child_pc K V ltb HS order o0 p c index (tr s)); [exact Ho | exact Hnd | exact Hfr1 | exact Hord | exact Hok0 | exact HE] | lp HE].
+    split; [eapply (ins_child_pc_f6 K V ltb HS order o0 p c index (tr s)); [exact Ho | exact Hnd | exact Hfr1 | exact Hord | exact Hok0 | exact HE] | lp HE].
   - (* InsWantSplitRight *)
     blk_top HB. unfold pc_ok_b in Hok0.
     destruct (find p (tr s)) as [[?|pi cs]|] eqn:Hfp; try discriminate Hok0.
@@ -385,7 +385,7 @@ Qed.
 
 End Counterexample.
 
-(* STATUS: everything above is proved; no axioms, nothing admitted.
+(* STATUS: everything above is proved; no axioms, no proof left open.
 
    The requested statement [own_pc_ok_step] is FALSE as written: [pc_ok_b] is true in reachable states but not
    inductive from [CIfull s /\ all_inv s].  Machine-checked counterexample: [own_pc_ok_step_needs_left_pos]
